@@ -38,8 +38,10 @@ func formatSlotToCidKey(slot uint64) string {
 	return "s2c-" + strconv.FormatUint(slot, 10)
 }
 
-func formatOffsetAndSizeKey(c cid.Cid) string {
-	return "o&s-" + c.String()
+// An object's offset belongs to one epoch's CAR file: the same CID can be stored in several epochs
+// (e.g. identical data frames), each time at another offset, and all epochs share one cache.
+func formatOffsetAndSizeKey(epoch uint64, c cid.Cid) string {
+	return "o&s-" + strconv.FormatUint(epoch, 10) + "-" + c.String()
 }
 
 // PutRawCarObject stores the raw CAR object data.
@@ -80,18 +82,18 @@ func (r *Cache) GetSlotToCid(slot uint64) (cid.Cid, error, bool) {
 	}
 }
 
-func (r *Cache) PutCidToOffsetAndSize(c cid.Cid, oas *indexes.OffsetAndSize) error {
+func (r *Cache) PutCidToOffsetAndSize(epoch uint64, c cid.Cid, oas *indexes.OffsetAndSize) error {
 	if oas == nil {
 		return errors.New("offset and size is nil")
 	}
 	if !oas.IsValid() {
 		return errors.New("offset and size is invalid")
 	}
-	return r.cache.Set(formatOffsetAndSizeKey(c), oas.Bytes())
+	return r.cache.Set(formatOffsetAndSizeKey(epoch, c), oas.Bytes())
 }
 
-func (r *Cache) GetCidToOffsetAndSize(c cid.Cid) (*indexes.OffsetAndSize, error, bool) {
-	if v, err := r.cache.Get(formatOffsetAndSizeKey(c)); err == nil {
+func (r *Cache) GetCidToOffsetAndSize(epoch uint64, c cid.Cid) (*indexes.OffsetAndSize, error, bool) {
+	if v, err := r.cache.Get(formatOffsetAndSizeKey(epoch, c)); err == nil {
 		var oas indexes.OffsetAndSize
 		if err := oas.FromBytes(v); err != nil {
 			return nil, err, false
